@@ -55,6 +55,9 @@ func e2eCases(tier string) []fw.Case {
 				continue
 			}
 			cases = append(cases, fw.Case{Ops: []string{fmt.Sprintf("e2e %d %s %d %d", cfg[0], lv, cfg[1], cfg[2])}, Tags: []string{"e2e", "level=" + lv}})
+			if lv == "one" || lv == "all" {
+				cases = append(cases, fw.Case{Ops: []string{fmt.Sprintf("e2e %d %s %d %d lag", cfg[0], lv, cfg[1], cfg[2])}, Tags: []string{"e2e-lag", "level=" + lv}})
+			}
 		}
 	}
 	return cases
@@ -472,6 +475,15 @@ func runE2E(f []string) (res string) {
 		owners = append(owners, (first+i)%n)
 	}
 	const base = int64(1600000000000000000)
+	if len(f) > 5 && f[5] == "lag" {
+		// the remote owners have not heard of the new shard group yet when its first write
+		// reaches them (the coordinator has): they must take the write all the same
+		for _, o := range owners {
+			if o != 0 {
+				c.SetLagging(o, true)
+			}
+		}
+	}
 	ids := c.AddShardGroup(base, base+1000000, [][]int{owners})
 	hh := &recHH{calls: map[uint64]int{}}
 	c.Nodes[0].PointsWriter.HintedHandoff = hh
